@@ -35,7 +35,9 @@ func (s *stubKM) NewKeyData([]byte) (*tinkpb.KeyData, error) { return nil, fmt.E
 // stubKMS is a harness-owned KMS client supporting one URI prefix.
 type stubKMS struct{ id, prefix string }
 
-func (s *stubKMS) Supported(uri string) bool { return len(uri) >= len(s.prefix) && uri[:len(s.prefix)] == s.prefix }
+func (s *stubKMS) Supported(uri string) bool {
+	return len(uri) >= len(s.prefix) && uri[:len(s.prefix)] == s.prefix
+}
 func (s *stubKMS) GetAEAD(string) (tink.AEAD, error) {
 	return nil, fmt.Errorf("stub")
 }
